@@ -505,6 +505,11 @@ func repRunCase(id string, in bhInput, gen *bhGenerator, pg *procGen, nrep int, 
 			if t.K == "upgrade" {
 				c.Tags = append(c.Tags, "upgrade-"+t.S)
 			}
+			if t.K == "param" && (t.S == "feemarket" || t.S == "consensus") {
+				for _, kv := range t.X {
+					c.Tags = append(c.Tags, "fee-param:"+t.S+"."+kv[0])
+				}
+			}
 		}
 	}
 	okKinds := []string{}
